@@ -1,33 +1,68 @@
 /*
  * C18 -- byte buffer: explicit-state search to fixpoint over the real
- * ByteBuffer (struct fields + memory image) against a list model.
+ * ByteBuffer (struct fields + memory image) against a list model, plus a
+ * large-scope value family and descriptor re-use histories.
  *
- * State key = (size, used, offset, image[size]).  The model of a state is
- * derived from the key itself: content = image[0..used), unread =
- * image[offset..used).  That is sound because a state is only enqueued after
- * the transition that produced it agreed with the model's prediction.
+ * Parts (all of them run the real code against the same list model):
+ *
+ *  A  small scope, to fixpoint.  State key = (size, used, offset,
+ *     image[size]).  The model of a state is derived from the key itself:
+ *     content = image[0..used), unread = image[offset..used).  That is sound
+ *     because a state is only enqueued after the transition that produced it
+ *     agreed with the model's prediction.
+ *  A' far operands.  After the fixpoint every reached state is offered
+ *     add / consume / consume_at_most with operand lengths from a boundary
+ *     family up to SIZE_MAX (2^8 .. 2^64 -/+ (size+1)).  Such an add or consume
+ *     has to fail without change, the at-most variant delivers what is there;
+ *     all of that is decidable without memory of that size: the source block
+ *     is never read by an add that refuses.
+ *  R  descriptor re-use.  Every set-up call of the argument matrix (set / use
+ *     / space; null memory, zero size, used > size, offset > used -- small and
+ *     far values) is made on a descriptor with a history: zeroed, 0xff-filled,
+ *     byte_buffer_null'ed, and in use with every (used, offset) geometry over
+ *     other memory or over the very memory now offered.  A refused set-up must
+ *     leave the descriptor (all four fields) and both memory blocks unchanged;
+ *     an accepted one must describe exactly what was asked for, and every
+ *     operation of the alphabet is then run once on the re-used descriptor
+ *     against the model of a fresh one (differential oracle).
+ *  B1 medium scope on real exact-size heap blocks whose size straddles a type
+ *     boundary (2^8, 2^16; thorough also 2^7, 2^15): every (used, offset) from
+ *     the boundary family is installed with byte_buffer_set and every operation
+ *     with boundary operand lengths is run once, full image compared.
+ *  B2 large scope on a 4 GiB + 128 KiB mapping: sizes straddling 2^31 and
+ *     2^32, (used, offset) from the boundary family, operations that move at
+ *     most 8 octets or have to refuse (so no clear, and rewind only when at most
+ *     8 octets are unread), octets compared in windows around every boundary;
+ *     plus the set-up matrix with such sizes.  Only the pages under the windows
+ *     are accessible: a call that touches another page of the mapping (work in
+ *     proportion to the buffer size -- nothing the statement forbids) is
+ *     abandoned as undecided and the run is marked non-exhaustive.
+ *
+ * The image an operation starts from is always the one the set-up call left
+ * (set-up must keep the octets it is told are filled; what it does to the free
+ * room is open).
  */
 #include "mc.h"
+
+#include <setjmp.h>
 
 #include <ufw/byte-buffer.h>
 
 #define MAXSIZE 8
-static const unsigned char ALPHA[3] = { 0x00, 0xa1, 0xb2 };
 
 enum opkind { OP_ADD, OP_CONSUME, OP_ATMOST, OP_REWIND, OP_RESET, OP_CLEAR, OP_REPEAT };
 struct op {
     enum opkind k;
     size_t len;
-    int pat; /* add: 0 all a1, 1 all b2, 2 alternating a1 b2 */
+    int pat; /* add: 0 all a1, 1 all b2, 2 alternating a1 b2, 3 positional */
 };
 
-static struct op ops[128];
-static int nops;
+#define MAXOPS 128
 
-static void
-make_ops(size_t size)
+static int
+make_ops(struct op *ops, size_t size)
 {
-    nops = 0;
+    int nops = 0;
     for (size_t len = 0; len <= size + 1; ++len)
         for (int pat = 0; pat < 3; ++pat) {
             if (len == 0 && pat > 0)
@@ -44,22 +79,244 @@ make_ops(size_t size)
     ops[nops++] = (struct op){ OP_RESET, 0, 0 };
     ops[nops++] = (struct op){ OP_CLEAR, 0, 0 };
     ops[nops++] = (struct op){ OP_REPEAT, 0, 0 };
+    return nops;
+}
+
+/* Far operand lengths for a buffer of `size` octets: every 2^w -/+ (size+1)
+ * for the widths a narrowing or a wrapping sum could hit.  2^64 + d (d >= 0)
+ * are the small lengths of the ordinary alphabet and left out here. */
+#define MAXFAR 256
+static int
+make_far(size_t *far, size_t size)
+{
+    static const size_t base[] = {
+        (size_t)1 << 8,  (size_t)1 << 15, (size_t)1 << 16, (size_t)1 << 31, (size_t)1 << 32,
+        (size_t)3 << 32, (size_t)1 << 48, (size_t)1 << 63, 0 /* 2^64 */
+    };
+    int n = 0;
+    for (size_t bi = 0; bi < sizeof base / sizeof base[0]; ++bi)
+        for (size_t d = 0; d <= 2 * (size + 1); ++d) {
+            /* delta = d - (size+1) */
+            if (base[bi] == 0 && d >= size + 1)
+                continue;
+            far[n++] = base[bi] + d - (size + 1);
+        }
+    return n;
 }
 
 static const char *
 opname(const struct op *o, char *buf, size_t n)
 {
-    static const char *pn[] = { "a1..", "b2..", "a1b2.." };
+    static const char *pn[] = { "a1..", "b2..", "a1b2..", "pos.." };
     switch (o->k) {
-    case OP_ADD: snprintf(buf, n, "add(%zu,%s)", o->len, pn[o->pat]); break;
-    case OP_CONSUME: snprintf(buf, n, "consume(%zu)", o->len); break;
-    case OP_ATMOST: snprintf(buf, n, "consume_at_most(%zu)", o->len); break;
+    case OP_ADD:
+        if (o->len > 0xffff)
+            snprintf(buf, n, "add(%#zx,%s)", o->len, pn[o->pat]);
+        else
+            snprintf(buf, n, "add(%zu,%s)", o->len, pn[o->pat]);
+        break;
+    case OP_CONSUME: snprintf(buf, n, o->len > 0xffff ? "consume(%#zx)" : "consume(%zu)", o->len); break;
+    case OP_ATMOST: snprintf(buf, n, o->len > 0xffff ? "consume_at_most(%#zx)" : "consume_at_most(%zu)", o->len); break;
     case OP_REWIND: snprintf(buf, n, "rewind"); break;
     case OP_RESET: snprintf(buf, n, "reset"); break;
     case OP_CLEAR: snprintf(buf, n, "clear"); break;
     case OP_REPEAT: snprintf(buf, n, "repeat"); break;
     }
     return buf;
+}
+
+static void
+fill_src(unsigned char *src, size_t n, int pat)
+{
+    for (size_t i = 0; i < n; ++i)
+        src[i] = (pat == 0)   ? 0xa1
+                 : (pat == 1) ? 0xb2
+                 : (pat == 2) ? ((i & 1) ? 0xb2 : 0xa1)
+                              : (unsigned char)(0xc3 ^ (i * 29 + (i >> 8) * 7));
+}
+
+/* The list model of one buffer: the whole memory image before the operation
+ * (content = img[0..used), unread = img[off..used)). */
+struct model {
+    size_t size, used, off;
+    unsigned char *img; /* size octets */
+};
+
+/* One operation on the real buffer `b` (memory `mem`, m->size octets) in
+ * lock-step with the model; m is advanced to the state the statement
+ * prescribes.  Returns whether the implementation agreed. */
+static bool
+run_op(ByteBuffer *b, unsigned char *mem, struct model *m, const struct op *o, const char **outcome)
+{
+    const size_t size = m->size;
+    const size_t rest = m->used - m->off;
+    /* an operand no buffer of this size could ever satisfy: the blocks handed
+     * to the library are then smaller than the operand says (a call that
+     * refuses does not touch them; the at-most variant is given room for
+     * everything that is there) */
+    const bool far = o->len > size + 1;
+    const size_t k_used = m->used, k_off = m->off;
+    bool ok = true, refused = false;
+    *outcome = "?";
+    switch (o->k) {
+    case OP_ADD: {
+        const size_t srcn = far ? size + 1 : o->len;
+        unsigned char *src = mc_exact(srcn);
+        fill_src(src, srcn, o->pat);
+        const bool fits = o->len <= size - m->used;
+        int rc = byte_buffer_add(b, src, o->len);
+        mc_log("add rc=%d", rc);
+        if (fits) {
+            memcpy(m->img + m->used, src, o->len);
+            m->used += o->len;
+            *outcome = "add-ok";
+            if (rc < 0) {
+                mc_fail("C18/add-appends", "add of %zu octets with %zu free refused rc=%d",
+                        o->len, size - k_used, rc);
+                ok = false;
+            }
+        } else {
+            refused = true;
+            *outcome = far ? "far-add-refused" : "add-refused";
+            if (rc >= 0) {
+                mc_fail("C18/add-refuses-overflow", "add of %#zx octets with %zu free returned %d",
+                        o->len, size - k_used, rc);
+                ok = false;
+            }
+        }
+        free(src);
+        break;
+    }
+    case OP_CONSUME: {
+        const size_t dstn = far ? rest + 8 : o->len;
+        unsigned char *dst = mc_exact(dstn);
+        memset(dst, 0xee, dstn);
+        int rc = byte_buffer_consume(b, dst, o->len);
+        mc_log("consume rc=%d", rc);
+        mc_log_hex("out", dst, dstn > 64 ? 64 : dstn);
+        if (o->len <= rest) {
+            *outcome = "consume-ok";
+            if (rc < 0) {
+                mc_fail("C18/consume-oldest", "consume(%zu) with %zu unread refused rc=%d", o->len, rest, rc);
+                ok = false;
+            } else if (memcmp(dst, m->img + m->off, o->len) != 0) {
+                mc_fail("C18/consume-oldest", "consume(%zu) did not return the oldest unread octets", o->len);
+                ok = false;
+            }
+            m->off += o->len;
+        } else {
+            refused = true;
+            *outcome = far ? "far-consume-refused" : "consume-refused";
+            if (rc >= 0) {
+                mc_fail("C18/consume-refuses-underrun", "consume(%#zx) with %zu unread returned %d", o->len, rest, rc);
+                ok = false;
+            }
+        }
+        free(dst);
+        break;
+    }
+    case OP_ATMOST: {
+        const size_t dstn = far ? rest + 8 : o->len;
+        unsigned char *dst = mc_exact(dstn);
+        memset(dst, 0xee, dstn);
+        ssize_t rc = byte_buffer_consume_at_most(b, dst, o->len);
+        mc_log("consume_at_most rc=%zd", rc);
+        mc_log_hex("out", dst, dstn > 64 ? 64 : dstn);
+        if (rest == 0) {
+            refused = true; /* nothing there: failing or not, nothing may change */
+            *outcome = far ? "far-atmost-empty" : "atmost-empty";
+            /* "failing only when none are": a request for zero octets
+             * on an empty buffer may fail or deliver its zero octets --
+             * the statement does not decide it; the state comparison
+             * below demands "nothing changed" either way */
+            if (o->len == 0 ? rc > 0 : rc >= 0) {
+                mc_fail("C18/atmost-fails-only-on-empty", "consume_at_most(%#zx) on an empty buffer returned %zd", o->len, rc);
+                ok = false;
+            }
+        } else {
+            const size_t n = o->len < rest ? o->len : rest;
+            *outcome = far ? "far-atmost-short" : (n < o->len) ? "atmost-short" : "atmost-full";
+            if (rc != (ssize_t)n) {
+                mc_fail("C18/atmost-count", "consume_at_most(%#zx) with %zu unread returned %zd, expected %zu", o->len, rest, rc, n);
+                ok = false;
+            } else if (memcmp(dst, m->img + m->off, n) != 0) {
+                mc_fail("C18/atmost-oldest", "consume_at_most(%#zx) did not return the oldest unread octets", o->len);
+                ok = false;
+            }
+            m->off += n;
+        }
+        free(dst);
+        break;
+    }
+    case OP_REWIND: {
+        int rc = byte_buffer_rewind(b);
+        mc_log("rewind rc=%d", rc);
+        memmove(m->img, m->img + m->off, rest);
+        m->used = rest;
+        m->off = 0;
+        *outcome = k_off ? (rest ? "rewind-moves" : "rewind-empties") : "rewind-noop";
+        if (rc < 0) {
+            mc_fail("C18/rewind-keeps-unread", "rewind on a valid buffer returned %d", rc);
+            ok = false;
+        }
+        break;
+    }
+    case OP_RESET:
+        byte_buffer_reset(b);
+        m->used = m->off = 0;
+        *outcome = "reset";
+        break;
+    case OP_CLEAR:
+        byte_buffer_clear(b);
+        m->used = m->off = 0;
+        memset(m->img, 0, size);
+        *outcome = "clear";
+        for (size_t i = 0; i < size; ++i)
+            if (mem[i] != 0) {
+                mc_fail("C18/clear-zeroes", "octet %zu is %02x after clear", i, mem[i]);
+                ok = false;
+                break;
+            }
+        break;
+    case OP_REPEAT:
+        byte_buffer_repeat(b);
+        m->off = 0;
+        *outcome = "repeat";
+        break;
+    }
+    mc_log("after: size=%zu used=%zu offset=%zu", b->size, b->used, b->offset);
+    mc_log_hex("image", mem, size > 64 ? 64 : size);
+    /* invariants and agreement with the model */
+    if (b->data != mem || b->size != size) {
+        mc_fail("C18/geometry-unchanged", "data/size changed: size=%zu", b->size);
+        ok = false;
+    } else if (!(b->offset <= b->used && b->used <= b->size)) {
+        mc_fail("C18/invariant", "offset=%zu used=%zu size=%zu", b->offset, b->used, b->size);
+        ok = false;
+    } else if (ok) {
+        const char *cl = refused                   ? "C18/refusal-unchanged"
+                         : (o->k == OP_REWIND)     ? "C18/rewind-keeps-unread"
+                         : (o->k == OP_ADD)        ? "C18/add-appends"
+                         : (o->k == OP_CONSUME || o->k == OP_ATMOST) ? "C18/consume-advances"
+                                                   : "C18/reset-clear-repeat";
+        if (b->used != m->used || b->offset != m->off) {
+            mc_fail(cl, "fields used=%zu offset=%zu, model used=%zu offset=%zu",
+                    b->used, b->offset, m->used, m->off);
+            ok = false;
+        } else if (memcmp(mem, m->img, m->used) != 0) {
+            mc_fail(cl, "filled region differs from the model's content");
+            ok = false;
+        } else if (refused && memcmp(mem, m->img, size) != 0) {
+            /* "fails without change": the whole image, not only the filled part */
+            mc_fail("C18/refusal-unchanged", "a refused operation changed the buffer's memory");
+            ok = false;
+        } else if (byte_buffer_avail(b) != size - m->used || byte_buffer_rest(b) != m->used - m->off) {
+            mc_fail("C18/avail-rest", "avail=%zu rest=%zu, model %zu %zu", byte_buffer_avail(b),
+                    byte_buffer_rest(b), size - m->used, m->used - m->off);
+            ok = false;
+        }
+    }
+    return ok;
 }
 
 struct key {
@@ -73,12 +330,55 @@ keylen(size_t size)
     return 3 + size;
 }
 
+/* one transition of the small-scope search: operation o on the state k */
+static bool
+transition(const struct key *k, size_t size, const struct op *o, struct key *nk, const char **outcome)
+{
+    bool ok = true;
+    /* real object on an exact-size heap block: ASan guards both ends */
+    unsigned char *mem = mc_exact_copy(k->img, size);
+    ByteBuffer b;
+    if (byte_buffer_set(&b, mem, size, k->used, k->offset) < 0) {
+        mc_fail("C18/setup-accepts-valid", "byte_buffer_set refused a valid state");
+        free(mem);
+        *outcome = "setup-refused";
+        return false;
+    }
+    if (memcmp(mem, k->img, k->used) != 0) {
+        /* the octets declared as already filled are the buffer's content */
+        mc_fail("C18/setup-accepts-valid", "set-up changed the octets it was told are filled");
+        free(mem);
+        *outcome = "setup-refused";
+        return false;
+    }
+    /* the image the operation starts from is the one set-up left (the
+     * statement does not say what set-up does to the free room) */
+    unsigned char m_img[MAXSIZE];
+    memcpy(m_img, mem, size);
+    struct model m = { size, k->used, k->offset, m_img };
+    ok = run_op(&b, mem, &m, o, outcome);
+    if (ok) {
+        memset(nk, 0, sizeof *nk);
+        nk->size = (unsigned char)size;
+        nk->used = (unsigned char)b.used;
+        nk->offset = (unsigned char)b.offset;
+        memcpy(nk->img, mem, size);
+    }
+    free(mem);
+    return ok;
+}
+
+#define STATE_FMT "size=%zu state=(used=%u,off=%u,img=%02x%02x%02x%02x%02x%02x%02x%02x) path=[%s]"
+#define STATE_ARGS(k) size, (k).used, (k).offset, (k).img[0], (k).img[1], (k).img[2], (k).img[3], \
+                      (k).img[4], (k).img[5], (k).img[6], (k).img[7], path
+
 static void
 explore(size_t size)
 {
     struct mc_set set;
     mc_set_init(&set);
-    make_ops(size);
+    static struct op ops[MAXOPS];
+    const int nops = make_ops(ops, size);
 
     struct key k0;
     memset(&k0, 0, sizeof k0);
@@ -96,186 +396,14 @@ explore(size_t size)
             char on[64];
             if (mc_would_run() && path[0] == 0)
                 mc_set_path(&set, cur, path, sizeof path);
-            mc_case("size=%zu state=(used=%u,off=%u,img=%02x%02x%02x%02x%02x%02x%02x%02x) path=[%s] op=%d:%s",
-                    size, k.used, k.offset, k.img[0], k.img[1], k.img[2], k.img[3],
-                    k.img[4], k.img[5], k.img[6], k.img[7], path, oi, opname(o, on, sizeof on));
+            mc_case(STATE_FMT " op=%d:%s", STATE_ARGS(k), oi, opname(o, on, sizeof on));
             mc_trans(1);
-            /* real object on an exact-size heap block: ASan guards both ends */
-            unsigned char *mem = mc_exact_copy(k.img, size);
-            ByteBuffer b;
-            if (byte_buffer_set(&b, mem, size, k.used, k.offset) < 0) {
-                mc_fail("C18/setup-accepts-valid", "byte_buffer_set refused a valid state");
-                free(mem);
-                mc_end(false, "setup-refused");
-                continue;
-            }
-            /* model prediction */
-            size_t m_used = k.used, m_off = k.offset;
-            unsigned char m_img[MAXSIZE];
-            memcpy(m_img, k.img, size);
-            const size_t rest = m_used - m_off;
-            bool ok = true;
-            const char *outcome = "?";
-            switch (o->k) {
-            case OP_ADD: {
-                unsigned char *src = mc_exact(o->len);
-                for (size_t i = 0; i < o->len; ++i)
-                    src[i] = (o->pat == 0) ? 0xa1 : (o->pat == 1) ? 0xb2 : ((i & 1) ? 0xb2 : 0xa1);
-                const bool fits = m_used + o->len <= size;
-                int rc = byte_buffer_add(&b, src, o->len);
-                mc_log("add rc=%d", rc);
-                if (fits) {
-                    memcpy(m_img + m_used, src, o->len);
-                    m_used += o->len;
-                    outcome = "add-ok";
-                    if (rc < 0) {
-                        mc_fail("C18/add-appends", "add of %zu octets with %zu free refused rc=%d",
-                                o->len, size - k.used, rc);
-                        ok = false;
-                    }
-                } else {
-                    outcome = "add-refused";
-                    if (rc >= 0) {
-                        mc_fail("C18/add-refuses-overflow", "add of %zu octets with %zu free returned %d",
-                                o->len, size - k.used, rc);
-                        ok = false;
-                    }
-                }
-                free(src);
-                break;
-            }
-            case OP_CONSUME: {
-                unsigned char *dst = mc_exact(o->len);
-                memset(dst, 0xee, o->len);
-                int rc = byte_buffer_consume(&b, dst, o->len);
-                mc_log("consume rc=%d", rc);
-                mc_log_hex("out", dst, o->len);
-                if (o->len <= rest) {
-                    outcome = "consume-ok";
-                    if (rc < 0) {
-                        mc_fail("C18/consume-oldest", "consume(%zu) with %zu unread refused rc=%d", o->len, rest, rc);
-                        ok = false;
-                    } else if (memcmp(dst, m_img + m_off, o->len) != 0) {
-                        mc_fail("C18/consume-oldest", "consume(%zu) did not return the oldest unread octets", o->len);
-                        ok = false;
-                    }
-                    m_off += o->len;
-                } else {
-                    outcome = "consume-refused";
-                    if (rc >= 0) {
-                        mc_fail("C18/consume-refuses-underrun", "consume(%zu) with %zu unread returned %d", o->len, rest, rc);
-                        ok = false;
-                    }
-                }
-                free(dst);
-                break;
-            }
-            case OP_ATMOST: {
-                unsigned char *dst = mc_exact(o->len);
-                memset(dst, 0xee, o->len);
-                ssize_t rc = byte_buffer_consume_at_most(&b, dst, o->len);
-                mc_log("consume_at_most rc=%zd", rc);
-                mc_log_hex("out", dst, o->len);
-                if (rest == 0) {
-                    outcome = "atmost-empty";
-                    /* "failing only when none are": a request for zero octets
-                     * on an empty buffer may fail or deliver its zero octets --
-                     * the statement does not decide it; the state comparison
-                     * below demands "nothing changed" either way */
-                    if (o->len == 0 ? rc > 0 : rc >= 0) {
-                        mc_fail("C18/atmost-fails-only-on-empty", "consume_at_most(%zu) on an empty buffer returned %zd", o->len, rc);
-                        ok = false;
-                    }
-                } else {
-                    const size_t n = o->len < rest ? o->len : rest;
-                    outcome = (n < o->len) ? "atmost-short" : "atmost-full";
-                    if (rc != (ssize_t)n) {
-                        mc_fail("C18/atmost-count", "consume_at_most(%zu) with %zu unread returned %zd, expected %zu", o->len, rest, rc, n);
-                        ok = false;
-                    } else if (memcmp(dst, m_img + m_off, n) != 0) {
-                        mc_fail("C18/atmost-oldest", "consume_at_most(%zu) did not return the oldest unread octets", o->len);
-                        ok = false;
-                    }
-                    m_off += n;
-                }
-                free(dst);
-                break;
-            }
-            case OP_REWIND: {
-                int rc = byte_buffer_rewind(&b);
-                mc_log("rewind rc=%d", rc);
-                memmove(m_img, m_img + m_off, rest);
-                m_used = rest;
-                m_off = 0;
-                outcome = k.offset ? (rest ? "rewind-moves" : "rewind-empties") : "rewind-noop";
-                if (k.offset && rest)
-                    saw_wrap = true;
-                if (rc < 0) {
-                    mc_fail("C18/rewind-keeps-unread", "rewind on a valid buffer returned %d", rc);
-                    ok = false;
-                }
-                break;
-            }
-            case OP_RESET:
-                byte_buffer_reset(&b);
-                m_used = m_off = 0;
-                outcome = "reset";
-                break;
-            case OP_CLEAR:
-                byte_buffer_clear(&b);
-                m_used = m_off = 0;
-                memset(m_img, 0, size);
-                outcome = "clear";
-                for (size_t i = 0; i < size; ++i)
-                    if (mem[i] != 0) {
-                        mc_fail("C18/clear-zeroes", "octet %zu is %02x after clear", i, mem[i]);
-                        ok = false;
-                        break;
-                    }
-                break;
-            case OP_REPEAT:
-                byte_buffer_repeat(&b);
-                m_off = 0;
-                outcome = "repeat";
-                break;
-            }
-            mc_log("after: size=%zu used=%zu offset=%zu", b.size, b.used, b.offset);
-            mc_log_hex("image", mem, size);
-            /* invariants and agreement with the model */
-            if (b.data != mem || b.size != size) {
-                mc_fail("C18/geometry-unchanged", "data/size changed: size=%zu", b.size);
-                ok = false;
-            } else if (!(b.offset <= b.used && b.used <= b.size)) {
-                mc_fail("C18/invariant", "offset=%zu used=%zu size=%zu", b.offset, b.used, b.size);
-                ok = false;
-            } else if (ok) {
-                const char *cl = (o->k == OP_REWIND) ? "C18/rewind-keeps-unread"
-                    : (o->k == OP_ADD) ? "C18/add-appends"
-                    : (o->k == OP_CONSUME || o->k == OP_ATMOST) ? "C18/consume-advances"
-                    : "C18/reset-clear-repeat";
-                if (b.used != m_used || b.offset != m_off) {
-                    mc_fail(cl, "fields used=%zu offset=%zu, model used=%zu offset=%zu",
-                            b.used, b.offset, m_used, m_off);
-                    ok = false;
-                } else if (memcmp(mem, m_img, m_used) != 0) {
-                    mc_fail(cl, "filled region differs from the model's content");
-                    ok = false;
-                } else if (byte_buffer_avail(&b) != size - m_used || byte_buffer_rest(&b) != m_used - m_off) {
-                    mc_fail("C18/avail-rest", "avail=%zu rest=%zu, model %zu %zu", byte_buffer_avail(&b),
-                            byte_buffer_rest(&b), size - m_used, m_used - m_off);
-                    ok = false;
-                }
-            }
-            if (ok) {
-                struct key nk;
-                memset(&nk, 0, sizeof nk);
-                nk.size = (unsigned char)size;
-                nk.used = (unsigned char)b.used;
-                nk.offset = (unsigned char)b.offset;
-                memcpy(nk.img, mem, size);
+            struct key nk;
+            const char *outcome;
+            if (o->k == OP_REWIND && k.offset && k.used > k.offset)
+                saw_wrap = true;
+            if (transition(&k, size, o, &nk, &outcome))
                 mc_set_add(&set, &nk, keylen(size), cur, oi, NULL);
-            }
-            free(mem);
             mc_end(o->k != OP_RESET || k.used != 0, outcome);
         }
         if (set.n > 2000000) {
@@ -286,10 +414,37 @@ explore(size_t size)
     mc.states += (int64_t)set.n;
     if (!saw_wrap && size > 1 && mc.only < 0 && mc.violations == 0)
         mc_broken("vacuous: no rewind of a partly consumed buffer at size %zu", size);
+
+    /* A': far operands in every reached state (after the fixpoint, so that a
+     * sanitizer abort here cannot hide a finding of the search above) */
+    static size_t far[MAXFAR];
+    const int nfar = make_far(far, size);
+    for (int64_t cur = 0; cur < (int64_t)set.n; ++cur) {
+        struct key k;
+        memset(&k, 0, sizeof k);
+        memcpy(&k, mc_set_key(&set, cur), keylen(size));
+        char path[200] = "";
+        for (int kind = 0; kind < 3; ++kind)
+            for (int fi = 0; fi < nfar; ++fi) {
+                const struct op o = { kind == 0 ? OP_ADD : kind == 1 ? OP_CONSUME : OP_ATMOST, far[fi], 2 };
+                char on[64];
+                if (mc_would_run() && path[0] == 0)
+                    mc_set_path(&set, cur, path, sizeof path);
+                mc_case(STATE_FMT " far-op=%s", STATE_ARGS(k), opname(&o, on, sizeof on));
+                mc_trans(1);
+                struct key nk;
+                const char *outcome;
+                /* successors are not enqueued: where the model is met, a far
+                 * add/consume leaves the state alone and at-most(far) is
+                 * at-most(size+1) of the alphabet above */
+                transition(&k, size, &o, &nk, &outcome);
+                mc_end(true, outcome);
+            }
+    }
     mc_set_free(&set);
 }
 
-/* Set-up matrix: byte_buffer_set / use / space */
+/* Set-up matrix on a descriptor holding arbitrary values */
 static void
 setup_matrix(size_t S)
 {
@@ -317,6 +472,9 @@ setup_matrix(size_t S)
                             mc_fail("C18/setup-accepts-valid", "fields not set");
                     } else if (rc >= 0) {
                         mc_fail("C18/setup-refuses", "accepted rc=%d", rc);
+                    } else if (b.data != (unsigned char *)0x10 || b.size != 77 || b.used != 55 || b.offset != 33) {
+                        mc_fail("C18/refusal-unchanged", "refused set-up changed the descriptor: size=%zu used=%zu offset=%zu",
+                                b.size, b.used, b.offset);
                     }
                     mc_end(true, valid ? "set-ok" : "set-refused");
                 }
@@ -339,10 +497,778 @@ setup_matrix(size_t S)
                                 which ? "space" : "use", rc, b.used, b.offset);
                 } else if (rc >= 0) {
                     mc_fail("C18/setup-refuses", "%s accepted rc=%d", which ? "space" : "use", rc);
+                } else if (b.data != (unsigned char *)0x10 || b.size != 77 || b.used != 55 || b.offset != 33) {
+                    mc_fail("C18/refusal-unchanged", "refused set-up changed the descriptor: size=%zu used=%zu offset=%zu",
+                            b.size, b.used, b.offset);
                 }
                 mc_end(true, valid ? "set-ok" : "set-refused");
             }
     free(mem);
+}
+
+/* ---- R: set-up on a descriptor with a history ------------------------------ */
+
+/* values offered as used / offset for a target of t octets */
+#define MAXVAL 48
+static int
+make_vals(size_t *v, size_t t)
+{
+    int n = 0;
+    for (size_t x = 0; x <= t + 2; ++x)
+        v[n++] = x;
+    const size_t farv[] = {
+        255, 256, 257, 65535, 65536, 65537,
+        ((size_t)1 << 31) - 1, (size_t)1 << 31,
+        ((size_t)1 << 32) - 1, (size_t)1 << 32, ((size_t)1 << 32) + 1,
+        ((size_t)1 << 32) + t, ((size_t)1 << 32) + t + 1,
+        (size_t)1 << 63, SIZE_MAX - 1, SIZE_MAX
+    };
+    for (size_t i = 0; i < sizeof farv / sizeof farv[0]; ++i) {
+        bool dup = false;
+        for (int j = 0; j < n; ++j)
+            dup |= (v[j] == farv[i]);
+        if (!dup)
+            v[n++] = farv[i];
+    }
+    return n;
+}
+
+static const char *
+valname(char *buf, size_t n, size_t v)
+{
+    snprintf(buf, n, v > 0xffff ? "%#zx" : "%zu", v);
+    return buf;
+}
+
+/* One set-up call on a descriptor with history `pk` (0 zeroed, 1 0xff-filled,
+ * 2 byte_buffer_null, 3 in use: (pu, po) over its own S octets).
+ * which: 0 set, 1 use, 2 space.  dk: 0 NULL, 1 another block, 2 the block the
+ * descriptor already describes. */
+static void
+reuse_case(size_t S, int pk, size_t pu, size_t po, int which, int dk, size_t t, size_t used, size_t off)
+{
+    unsigned char *pmem = mc_exact(S);
+    for (size_t i = 0; i < S; ++i)
+        pmem[i] = (unsigned char)(0x31 + i);
+    const size_t tn = t ? t : 1;
+    unsigned char *tmem = mc_exact(tn);
+    for (size_t i = 0; i < tn; ++i)
+        tmem[i] = (unsigned char)(0x71 + i);
+    unsigned char p0[MAXSIZE + 2], t0[MAXSIZE + 2];
+
+    ByteBuffer b;
+    if (pk == 0) {
+        memset(&b, 0, sizeof b);
+    } else if (pk == 1) {
+        memset(&b, 0xff, sizeof b);
+    } else if (pk == 2) {
+        memset(&b, 0xff, sizeof b);
+        byte_buffer_null(&b);
+    } else if (byte_buffer_set(&b, pmem, S, pu, po) < 0) {
+        mc_fail("C18/setup-accepts-valid", "byte_buffer_set refused a valid state");
+        free(pmem);
+        free(tmem);
+        mc_end(false, "setup-refused");
+        return;
+    }
+    /* images as the descriptor's own set-up left them */
+    memcpy(p0, pmem, S);
+    memcpy(t0, tmem, tn);
+    const ByteBuffer before = b;
+    unsigned char *data = (dk == 0) ? NULL : (dk == 1) ? tmem : pmem;
+    const size_t dn = (dk == 1) ? tn : S; /* octets behind data */
+    if (which != 0) {
+        used = (which == 1) ? t : 0;
+        off = 0;
+    }
+    int rc = (which == 0)   ? byte_buffer_set(&b, data, t, used, off)
+             : (which == 1) ? byte_buffer_use(&b, data, t)
+                            : byte_buffer_space(&b, data, t);
+    mc_trans(1);
+    mc_log("rc=%d data=%s size=%zu used=%zu offset=%zu", rc,
+           b.data == NULL ? "NULL" : b.data == pmem ? "prior-block" : b.data == tmem ? "other-block" : "?",
+           b.size, b.used, b.offset);
+    const bool valid = data != NULL && t > 0 && used <= t && off <= used;
+    if (!valid) {
+        if (rc >= 0)
+            mc_fail("C18/setup-refuses", "accepted rc=%d", rc);
+        else if (b.data != before.data || b.size != before.size || b.used != before.used
+                 || b.offset != before.offset)
+            mc_fail("C18/refusal-unchanged",
+                    "refused set-up changed the descriptor: data %s, size %zu -> %zu, used %zu -> %zu, offset %zu -> %zu",
+                    b.data == before.data ? "same" : "changed", before.size, b.size, before.used, b.used,
+                    before.offset, b.offset);
+        else if (memcmp(pmem, p0, S) != 0 || memcmp(tmem, t0, tn) != 0)
+            mc_fail("C18/refusal-unchanged", "refused set-up changed buffer memory");
+        mc_end(true, pk == 3 ? "reuse-set-refused" : "dirty-set-refused");
+    } else {
+        if (rc < 0)
+            mc_fail("C18/setup-accepts-valid", "refused rc=%d", rc);
+        else if (b.data != data || b.size != t || b.used != used || b.offset != off)
+            mc_fail("C18/setup-accepts-valid", "fields not set: size=%zu used=%zu offset=%zu", b.size, b.used, b.offset);
+        else if (memcmp(data, dk == 1 ? t0 : p0, used) != 0)
+            /* the octets declared as already filled are the buffer's content */
+            mc_fail("C18/setup-accepts-valid", "set-up changed the octets it was told are filled");
+        else {
+            /* differential: the re-used descriptor must behave like a fresh
+             * one describing the same state -- every operation once */
+            static struct op rops[MAXOPS];
+            const int nrops = make_ops(rops, t);
+            const ByteBuffer after = b;
+            unsigned char img0[MAXSIZE + 2];
+            memcpy(img0, data, t);
+            for (int oi = 0; oi < nrops && !mc.cur_failed; ++oi) {
+                ByteBuffer c = after;
+                /* the descriptor is to describe t octets: give it exactly t */
+                unsigned char *cm = mc_exact_copy(img0, t);
+                c.data = cm;
+                unsigned char m_img[MAXSIZE + 2];
+                memcpy(m_img, img0, t);
+                struct model m = { t, used, off, m_img };
+                const char *oc;
+                char on[64];
+                mc_log("continue with %s", opname(&rops[oi], on, sizeof on));
+                mc_trans(1);
+                run_op(&c, cm, &m, &rops[oi], &oc);
+                free(cm);
+            }
+        }
+        (void)dn;
+        mc_end(true, pk == 3 ? "reuse-set-ok" : "dirty-set-ok");
+    }
+    free(pmem);
+    free(tmem);
+}
+
+static void
+reuse_pass(size_t S)
+{
+    static const char *PK[] = { "zeroed", "ff-filled", "nulled", "in-use" };
+    static const char *WH[] = { "set", "use", "space" };
+    static const char *DK[] = { "NULL", "other-block", "same-block" };
+    size_t tsz[4] = { 0, 1, S, S + 1 };
+    int nt = 0;
+    size_t ts[4];
+    for (int i = 0; i < 4; ++i) {
+        bool dup = false;
+        for (int j = 0; j < nt; ++j)
+            dup |= ts[j] == tsz[i];
+        if (!dup)
+            ts[nt++] = tsz[i];
+    }
+    for (int pk = 0; pk < 4; ++pk)
+        for (size_t pu = 0; pu <= (pk == 3 ? S : 0); ++pu)
+            for (size_t po = 0; po <= (pk == 3 ? pu : 0); ++po)
+                for (int ti = 0; ti < nt; ++ti)
+                    for (int dk = 0; dk < 3; ++dk) {
+                        const size_t t = ts[ti];
+                        /* "same block" only for a descriptor that has one, and
+                         * only for sizes that block really has */
+                        if (dk == 2 && (pk != 3 || t > S))
+                            continue;
+                        size_t vals[MAXVAL];
+                        const int nv = make_vals(vals, t);
+                        char ub[24], ob[24];
+                        for (int ui = 0; ui < nv; ++ui)
+                            for (int oi = 0; oi < nv; ++oi) {
+                                if (!mc_case("reuse S=%zu prior=%s(used=%zu,off=%zu) set(data=%s,size=%zu,used=%s,offset=%s)",
+                                             S, PK[pk], pu, po, DK[dk], t, valname(ub, sizeof ub, vals[ui]),
+                                             valname(ob, sizeof ob, vals[oi])))
+                                    continue;
+                                reuse_case(S, pk, pu, po, 0, dk, t, vals[ui], vals[oi]);
+                            }
+                        for (int which = 1; which < 3; ++which) {
+                            if (!mc_case("reuse S=%zu prior=%s(used=%zu,off=%zu) %s(data=%s,size=%zu)",
+                                         S, PK[pk], pu, po, WH[which], DK[dk], t))
+                                continue;
+                            reuse_case(S, pk, pu, po, which, dk, t, 0, 0);
+                        }
+                    }
+}
+
+/* ---- B1: sizes straddling 2^8 / 2^16 on exact heap blocks ------------------- */
+
+static int
+uniq_push(size_t *v, int n, int max, size_t x)
+{
+    for (int i = 0; i < n; ++i)
+        if (v[i] == x)
+            return n;
+    if (n < max)
+        v[n++] = x;
+    return n;
+}
+
+static unsigned char
+pos_pattern(size_t i)
+{
+    return (unsigned char)(i * 131 + (i >> 8) * 17 + (i >> 16) * 29 + (i >> 31) * 101 + (i >> 32) * 57 + 5);
+}
+
+/* field values (used / offset) for a buffer of S octets whose size is next to
+ * the boundary bd */
+static int
+geometry_vals(size_t *v, int max, size_t S, size_t bd)
+{
+    int n = 0;
+    const size_t cand[] = { 0, 1, 2, bd / 2, bd - 2, bd - 1, bd, bd + 1, S - 2, S - 1, S };
+    for (size_t i = 0; i < sizeof cand / sizeof cand[0]; ++i)
+        if (cand[i] <= S)
+            n = uniq_push(v, n, max, cand[i]);
+    return n;
+}
+
+static void
+medium_family(void)
+{
+    static const size_t bq[] = { 256, 65536 };
+    static const size_t bt[] = { 128, 256, 32768, 65536 };
+    const size_t *bds = mc_thorough() ? bt : bq;
+    const int nb = mc_thorough() ? 4 : 2;
+    for (int bi = 0; bi < nb; ++bi)
+        for (int ds = -1; ds <= 1; ++ds) {
+            const size_t bd = bds[bi], S = bd + (size_t)ds;
+            size_t gv[16];
+            const int ng = geometry_vals(gv, 16, S, bd);
+            for (int ui = 0; ui < ng; ++ui)
+                for (int oi = 0; oi < ng; ++oi) {
+                    const size_t u0 = gv[ui], o0 = gv[oi];
+                    if (o0 > u0)
+                        continue;
+                    const size_t avail = S - u0, rest = u0 - o0;
+                    struct op ops[96];
+                    int no = 0;
+                    size_t lens[32];
+                    int nl = 0;
+                    /* add: small, around the free room, around the boundary, far */
+                    const size_t al[] = { 0, 1, 2, 3, avail - 1, avail, avail + 1, avail + 2, bd - 1, bd, bd + 1,
+                                          S, S + 1, avail + bd, avail + 2 * bd,
+                                          (size_t)1 << 32, ((size_t)1 << 32) + avail, (size_t)1 << 63,
+                                          SIZE_MAX - u0, SIZE_MAX - u0 + 1, SIZE_MAX - u0 + 2, SIZE_MAX };
+                    for (size_t i = 0; i < sizeof al / sizeof al[0]; ++i)
+                        if (!(avail == 0 && al[i] == avail - 1))
+                            nl = uniq_push(lens, nl, 32, al[i]);
+                    for (int i = 0; i < nl; ++i)
+                        ops[no++] = (struct op){ OP_ADD, lens[i], 3 };
+                    nl = 0;
+                    const size_t cl[] = { 0, 1, 2, 3, rest - 1, rest, rest + 1, rest + 2, bd - 1, bd, bd + 1,
+                                          S, S + 1, rest + bd, rest + 2 * bd,
+                                          (size_t)1 << 32, ((size_t)1 << 32) + rest, (size_t)1 << 63,
+                                          SIZE_MAX - o0, SIZE_MAX - o0 + 1, SIZE_MAX - o0 + 2, SIZE_MAX };
+                    for (size_t i = 0; i < sizeof cl / sizeof cl[0]; ++i)
+                        if (!(rest == 0 && cl[i] == rest - 1))
+                            nl = uniq_push(lens, nl, 32, cl[i]);
+                    for (int i = 0; i < nl; ++i)
+                        ops[no++] = (struct op){ OP_CONSUME, lens[i], 0 };
+                    for (int i = 0; i < nl; ++i)
+                        ops[no++] = (struct op){ OP_ATMOST, lens[i], 0 };
+                    ops[no++] = (struct op){ OP_REWIND, 0, 0 };
+                    ops[no++] = (struct op){ OP_RESET, 0, 0 };
+                    ops[no++] = (struct op){ OP_CLEAR, 0, 0 };
+                    ops[no++] = (struct op){ OP_REPEAT, 0, 0 };
+                    for (int k = 0; k < no; ++k) {
+                        char on[64];
+                        if (!mc_case("medium size=%zu state=(used=%zu,off=%zu,img=positional) op=%s",
+                                     S, u0, o0, opname(&ops[k], on, sizeof on)))
+                            continue;
+                        mc_trans(1);
+                        unsigned char *mem = mc_exact(S);
+                        unsigned char *img = malloc(S);
+                        for (size_t i = 0; i < S; ++i)
+                            mem[i] = img[i] = pos_pattern(i);
+                        ByteBuffer b;
+                        memset(&b, 0, sizeof b);
+                        const char *outcome = "setup-refused";
+                        if (byte_buffer_set(&b, mem, S, u0, o0) < 0) {
+                            mc_fail("C18/setup-accepts-valid", "byte_buffer_set refused a valid state");
+                        } else if (memcmp(mem, img, u0) != 0) {
+                            mc_fail("C18/setup-accepts-valid", "set-up changed the octets it was told are filled");
+                        } else {
+                            memcpy(img, mem, S); /* free room as set-up left it */
+                            struct model m = { S, u0, o0, img };
+                            run_op(&b, mem, &m, &ops[k], &outcome);
+                        }
+                        free(mem);
+                        free(img);
+                        /* class names of this family carry their own prefix */
+                        const char *oc = "medium-other";
+                        if (!strcmp(outcome, "add-ok")) oc = "medium-add-ok";
+                        else if (!strcmp(outcome, "add-refused") || !strcmp(outcome, "far-add-refused")) oc = "medium-add-refused";
+                        else if (!strcmp(outcome, "consume-ok")) oc = "medium-consume-ok";
+                        else if (!strcmp(outcome, "consume-refused") || !strcmp(outcome, "far-consume-refused")) oc = "medium-consume-refused";
+                        else if (!strncmp(outcome, "atmost", 6) || !strncmp(outcome, "far-atmost", 10)) oc = "medium-atmost";
+                        else if (!strncmp(outcome, "rewind", 6)) oc = "medium-rewind";
+                        mc_end(true, oc);
+                    }
+                }
+        }
+}
+
+/* ---- B2: sizes straddling 2^31 / 2^32 on a lazily backed mapping ------------ */
+
+#define BIGLEN (((size_t)1 << 32) + ((size_t)1 << 17))
+static unsigned char *bigmap;
+static const size_t HOTW[] = { 0, (size_t)1 << 16, (size_t)1 << 31, (size_t)1 << 32 };
+#define NHOT (sizeof HOTW / sizeof HOTW[0])
+#define HOT_BEFORE 32
+#define HOT_AFTER 64
+
+static size_t hot_lo(size_t w) { return w >= HOT_BEFORE ? w - HOT_BEFORE : 0; }
+static size_t hot_hi(size_t w) { return w + HOT_AFTER; }
+
+static void
+hot_write(void)
+{
+    for (size_t h = 0; h < NHOT; ++h)
+        for (size_t p = hot_lo(HOTW[h]); p < hot_hi(HOTW[h]); ++p)
+            bigmap[p] = pos_pattern(p);
+}
+
+/* Only the pages under the windows are accessible.  An implementation that
+ * touches any other page of the mapping (say, one that scrubs free room: work
+ * proportional to the size, legitimate, but 4 GiB here) is not a violation:
+ * the case is abandoned and the run marked non-exhaustive.  Faults elsewhere
+ * go to the sanitizer's handler as before. */
+static sigjmp_buf big_jmp;
+static volatile sig_atomic_t big_armed;
+static struct sigaction big_oldsa;
+
+static void
+big_segv(int sig, siginfo_t *si, void *ctx)
+{
+    const uintptr_t a = (uintptr_t)si->si_addr;
+    if (big_armed && bigmap != NULL && a >= (uintptr_t)bigmap && a < (uintptr_t)bigmap + BIGLEN) {
+        big_armed = 0;
+        siglongjmp(big_jmp, 1);
+    }
+    if (big_oldsa.sa_flags & SA_SIGINFO) {
+        big_oldsa.sa_sigaction(sig, si, ctx);
+    } else {
+        signal(SIGSEGV, SIG_DFL);
+    }
+}
+
+static bool
+big_get(void)
+{
+    if (bigmap != NULL)
+        return true;
+    void *p = mmap(NULL, BIGLEN, PROT_NONE, MAP_PRIVATE | MAP_ANONYMOUS | MAP_NORESERVE, -1, 0);
+    if (p == MAP_FAILED)
+        return false;
+    const size_t pg = (size_t)sysconf(_SC_PAGESIZE);
+    for (size_t h = 0; h < NHOT; ++h) {
+        const size_t lo = hot_lo(HOTW[h]) / pg * pg, hi = (hot_hi(HOTW[h]) + pg - 1) / pg * pg;
+        if (mprotect((unsigned char *)p + lo, hi - lo, PROT_READ | PROT_WRITE) != 0) {
+            munmap(p, BIGLEN);
+            return false;
+        }
+    }
+    bigmap = p;
+    struct sigaction sa;
+    memset(&sa, 0, sizeof sa);
+    sa.sa_sigaction = big_segv;
+    sa.sa_flags = SA_SIGINFO | SA_NODEFER;
+    sigaction(SIGSEGV, &sa, &big_oldsa);
+    hot_write();
+    return true;
+}
+
+/* run `CALL` on the mapping; `UNDECIDED` when it touched a page outside the windows */
+#define BIG_GUARDED(CALL, UNDECIDED)            \
+    do {                                        \
+        if (sigsetjmp(big_jmp, 1) == 0) {       \
+            big_armed = 1;                      \
+            CALL;                               \
+            big_armed = 0;                      \
+        } else {                                \
+            UNDECIDED = true;                   \
+        }                                       \
+    } while (0)
+
+/* the windows as they were when the operation under test started */
+static unsigned char hot0[NHOT][HOT_BEFORE + HOT_AFTER];
+
+static void
+hot_snap(void)
+{
+    for (size_t h = 0; h < NHOT; ++h)
+        for (size_t p = hot_lo(HOTW[h]); p < hot_hi(HOTW[h]); ++p)
+            hot0[h][p - hot_lo(HOTW[h])] = bigmap[p];
+}
+
+static unsigned char
+hot_was(size_t p)
+{
+    for (size_t h = 0; h < NHOT; ++h)
+        if (p >= hot_lo(HOTW[h]) && p < hot_hi(HOTW[h]))
+            return hot0[h][p - hot_lo(HOTW[h])];
+    return 0; /* not reached: callers stay inside the windows */
+}
+
+/* set-up must keep the octets it is told are filled: [0, used) */
+static bool
+hot_filled_kept(size_t used, size_t *badpos)
+{
+    for (size_t h = 0; h < NHOT; ++h)
+        for (size_t p = hot_lo(HOTW[h]); p < hot_hi(HOTW[h]) && p < used; ++p)
+            if (bigmap[p] != pos_pattern(p)) {
+                *badpos = p;
+                return false;
+            }
+    return true;
+}
+
+enum bigexp { BX_SAME, BX_ADD, BX_REWIND };
+
+/* Octets in the windows: inside [0, det) they are the buffer's content and
+ * must be what the model says; inside [det, S) they are free room the
+ * statement says nothing about (unless the call was refused: then the whole
+ * image is unchanged); from S on they are not the buffer's. */
+static bool
+hot_check(size_t S, size_t det, bool refused, enum bigexp bx, size_t a, size_t n, const unsigned char *src,
+          size_t *badpos)
+{
+    for (size_t h = 0; h < NHOT; ++h)
+        for (size_t p = hot_lo(HOTW[h]); p < hot_hi(HOTW[h]); ++p) {
+            unsigned char want = hot_was(p);
+            if (p < S && p >= det && !refused)
+                continue;
+            if (p < det && !refused) {
+                if (bx == BX_ADD && p >= a && p < a + n)
+                    want = src[p - a];
+                else if (bx == BX_REWIND)
+                    want = hot_was(p + a);
+            }
+            if (bigmap[p] != want) {
+                *badpos = p;
+                return false;
+            }
+        }
+    return true;
+}
+
+static void
+big_family(void)
+{
+    const size_t B31 = (size_t)1 << 31, B32 = (size_t)1 << 32;
+    const size_t sizes[] = { B31 - 1, B31, B31 + 1, B32 - 1, B32, B32 + 1, B32 + 7 };
+    bool mapped = true, said_undecided = false;
+    for (size_t si = 0; si < sizeof sizes / sizeof sizes[0]; ++si) {
+        const size_t S = sizes[si];
+        size_t gv[32];
+        int ng = 0;
+        for (size_t h = 0; h < NHOT; ++h)
+            for (int d = -2; d <= 2; ++d) {
+                if (HOTW[h] == 0 && d < 0)
+                    continue;
+                const size_t v = HOTW[h] + (size_t)d;
+                if (v <= S)
+                    ng = uniq_push(gv, ng, 32, v);
+            }
+        ng = uniq_push(gv, ng, 32, S - 1);
+        ng = uniq_push(gv, ng, 32, S);
+        for (int ui = 0; ui < ng; ++ui)
+            for (int oi = 0; oi < ng; ++oi) {
+                const size_t u0 = gv[ui], o0 = gv[oi];
+                if (o0 > u0)
+                    continue;
+                const size_t avail = S - u0, rest = u0 - o0;
+                struct op ops[96];
+                int no = 0;
+                size_t lens[32];
+                int nl = 0;
+                const size_t al[] = { 0, 1, 3, 8, avail, avail + 1, avail + 2, avail + B32, B32, B32 + 1, B32 + avail,
+                                      2 * B32, (size_t)1 << 63, SIZE_MAX - u0, SIZE_MAX - u0 + 1, SIZE_MAX - u0 + 2,
+                                      SIZE_MAX };
+                for (size_t i = 0; i < sizeof al / sizeof al[0]; ++i)
+                    /* an add that fits is run only when it moves <= 8 octets */
+                    if (al[i] > avail || al[i] <= 8)
+                        nl = uniq_push(lens, nl, 32, al[i]);
+                for (int i = 0; i < nl; ++i)
+                    ops[no++] = (struct op){ OP_ADD, lens[i], 3 };
+                nl = 0;
+                const size_t cl[] = { 0, 1, 3, 8, rest, rest + 1, rest + 2, rest + B32, B32, B32 + 1, B32 + rest,
+                                      2 * B32, (size_t)1 << 63, SIZE_MAX - o0, SIZE_MAX - o0 + 1, SIZE_MAX - o0 + 2,
+                                      SIZE_MAX };
+                for (size_t i = 0; i < sizeof cl / sizeof cl[0]; ++i)
+                    if (cl[i] > rest || cl[i] <= 8)
+                        nl = uniq_push(lens, nl, 32, cl[i]);
+                for (int i = 0; i < nl; ++i)
+                    ops[no++] = (struct op){ OP_CONSUME, lens[i], 0 };
+                for (int i = 0; i < nl; ++i)
+                    /* at-most delivers min(len, rest): run when that is <= 8 */
+                    if ((lens[i] < rest ? lens[i] : rest) <= 8)
+                        ops[no++] = (struct op){ OP_ATMOST, lens[i], 0 };
+                if (rest <= 8 && (o0 > 0 || u0 <= 8))
+                    ops[no++] = (struct op){ OP_REWIND, 0, 0 };
+                ops[no++] = (struct op){ OP_RESET, 0, 0 };
+                ops[no++] = (struct op){ OP_REPEAT, 0, 0 };
+                for (int k = 0; k < no; ++k) {
+                    char on[64];
+                    const struct op *o = &ops[k];
+                    if (!mc_case("big size=%#zx state=(used=%#zx,off=%#zx,img=positional) op=%s",
+                                 S, u0, o0, opname(o, on, sizeof on)))
+                        continue;
+                    if (!big_get()) {
+                        if (mapped)
+                            mc_cap("4 GiB mapping not available: large-scope family skipped");
+                        mapped = false;
+                        mc_end(false, "big-unmapped");
+                        continue;
+                    }
+                    mc_trans(1);
+                    ByteBuffer b;
+                    memset(&b, 0, sizeof b);
+                    bool undecided = false;
+                    int src0 = 0;
+                    BIG_GUARDED(src0 = byte_buffer_set(&b, bigmap, S, u0, o0), undecided);
+                    if (!undecided && src0 < 0) {
+                        mc_fail("C18/setup-accepts-valid", "byte_buffer_set refused a valid state");
+                        mc_end(false, "setup-refused");
+                        continue;
+                    }
+                    size_t kept = 0;
+                    if (!undecided && !hot_filled_kept(u0, &kept)) {
+                        mc_fail("C18/setup-accepts-valid", "set-up changed octet %#zx it was told is filled", kept);
+                        hot_write();
+                        mc_end(false, "setup-refused");
+                        continue;
+                    }
+                    if (!undecided)
+                        hot_snap();
+                    size_t m_used = u0, m_off = o0;
+                    bool refused = false;
+                    enum bigexp bx = BX_SAME;
+                    size_t xa = 0, xn = 0;
+                    unsigned char src[8], dst[16];
+                    unsigned char *xsrc = NULL, *xdst = NULL;
+                    const char *outcome = "?";
+                    switch (undecided ? OP_CLEAR : o->k) {
+                    case OP_ADD: {
+                        const bool fits = o->len <= avail;
+                        xsrc = mc_exact(8);
+                        fill_src(xsrc, 8, 3);
+                        memcpy(src, xsrc, 8);
+                        int rc = 0;
+                        BIG_GUARDED(rc = byte_buffer_add(&b, xsrc, o->len), undecided);
+                        if (undecided)
+                            break;
+                        mc_log("add rc=%d", rc);
+                        if (fits) {
+                            outcome = "big-add-ok";
+                            m_used += o->len;
+                            bx = BX_ADD, xa = u0, xn = o->len;
+                            if (rc < 0)
+                                mc_fail("C18/add-appends", "add of %zu octets with %#zx free refused rc=%d", o->len, avail, rc);
+                        } else {
+                            outcome = "big-add-refused";
+                            refused = true;
+                            if (rc >= 0)
+                                mc_fail("C18/add-refuses-overflow", "add of %#zx octets with %#zx free returned %d", o->len, avail, rc);
+                        }
+                        break;
+                    }
+                    case OP_CONSUME: {
+                        xdst = mc_exact(8);
+                        memset(xdst, 0xee, 8);
+                        int rc = 0;
+                        BIG_GUARDED(rc = byte_buffer_consume(&b, xdst, o->len), undecided);
+                        if (undecided)
+                            break;
+                        mc_log("consume rc=%d", rc);
+                        if (o->len <= rest) {
+                            outcome = "big-consume-ok";
+                            m_off += o->len;
+                            if (rc < 0)
+                                mc_fail("C18/consume-oldest", "consume(%zu) with %#zx unread refused rc=%d", o->len, rest, rc);
+                            else
+                                for (size_t i = 0; i < o->len; ++i)
+                                    if (xdst[i] != pos_pattern(o0 + i)) {
+                                        mc_fail("C18/consume-oldest", "consume(%zu) did not return the oldest unread octets (octet %zu)", o->len, i);
+                                        break;
+                                    }
+                        } else {
+                            outcome = "big-consume-refused";
+                            refused = true;
+                            if (rc >= 0)
+                                mc_fail("C18/consume-refuses-underrun", "consume(%#zx) with %#zx unread returned %d", o->len, rest, rc);
+                        }
+                        break;
+                    }
+                    case OP_ATMOST: {
+                        const size_t n = o->len < rest ? o->len : rest;
+                        xdst = mc_exact(16);
+                        memset(xdst, 0xee, 16);
+                        ssize_t rc = 0;
+                        BIG_GUARDED(rc = byte_buffer_consume_at_most(&b, xdst, o->len), undecided);
+                        if (undecided)
+                            break;
+                        mc_log("consume_at_most rc=%zd", rc);
+                        if (rest == 0) {
+                            outcome = "big-atmost-empty";
+                            refused = true;
+                            if (o->len == 0 ? rc > 0 : rc >= 0)
+                                mc_fail("C18/atmost-fails-only-on-empty", "consume_at_most(%#zx) on an empty buffer returned %zd", o->len, rc);
+                        } else {
+                            outcome = "big-atmost";
+                            m_off += n;
+                            if (rc != (ssize_t)n)
+                                mc_fail("C18/atmost-count", "consume_at_most(%#zx) with %#zx unread returned %zd, expected %zu", o->len, rest, rc, n);
+                            else
+                                for (size_t i = 0; i < n; ++i)
+                                    if (xdst[i] != pos_pattern(o0 + i)) {
+                                        mc_fail("C18/atmost-oldest", "consume_at_most(%#zx) did not return the oldest unread octets (octet %zu)", o->len, i);
+                                        break;
+                                    }
+                        }
+                        break;
+                    }
+                    case OP_REWIND: {
+                        int rc = 0;
+                        BIG_GUARDED(rc = byte_buffer_rewind(&b), undecided);
+                        if (undecided)
+                            break;
+                        mc_log("rewind rc=%d", rc);
+                        outcome = "big-rewind";
+                        m_used = rest;
+                        m_off = 0;
+                        if (o0 > 0)
+                            bx = BX_REWIND, xa = o0;
+                        if (rc < 0)
+                            mc_fail("C18/rewind-keeps-unread", "rewind on a valid buffer returned %d", rc);
+                        break;
+                    }
+                    case OP_RESET:
+                        BIG_GUARDED(byte_buffer_reset(&b), undecided);
+                        m_used = m_off = 0;
+                        outcome = "big-reset";
+                        break;
+                    case OP_REPEAT:
+                        BIG_GUARDED(byte_buffer_repeat(&b), undecided);
+                        m_off = 0;
+                        outcome = "big-repeat";
+                        break;
+                    default: break;
+                    }
+                    (void)dst;
+                    if (undecided) {
+                        /* the implementation touched pages of the mapping outside the
+                         * windows: nothing the statement forbids, but not decidable here */
+                        mc_log("undecided: the call touched the mapping outside the compared windows");
+                        if (!said_undecided)
+                            mc_cap("large-scope cases abandoned: the implementation touches memory in proportion to the buffer size");
+                        said_undecided = true;
+                        free(xsrc);
+                        free(xdst);
+                        hot_write();
+                        mc_end(false, "big-undecided");
+                        continue;
+                    }
+                    mc_log("after: size=%#zx used=%#zx offset=%#zx", b.size, b.used, b.offset);
+                    size_t bad = 0;
+                    const char *cl_ = refused                 ? "C18/refusal-unchanged"
+                                      : (o->k == OP_REWIND)   ? "C18/rewind-keeps-unread"
+                                      : (o->k == OP_ADD)      ? "C18/add-appends"
+                                      : (o->k == OP_CONSUME || o->k == OP_ATMOST) ? "C18/consume-advances"
+                                                              : "C18/reset-clear-repeat";
+                    if (b.data != bigmap || b.size != S)
+                        mc_fail("C18/geometry-unchanged", "data/size changed: size=%#zx", b.size);
+                    else if (!(b.offset <= b.used && b.used <= b.size))
+                        mc_fail("C18/invariant", "offset=%#zx used=%#zx size=%#zx", b.offset, b.used, b.size);
+                    else if (b.used != m_used || b.offset != m_off)
+                        mc_fail(cl_, "fields used=%#zx offset=%#zx, model used=%#zx offset=%#zx", b.used, b.offset, m_used, m_off);
+                    else if (!hot_check(S, m_used, refused, bx, xa, xn, src, &bad)) {
+                        if (bad >= S)
+                            mc_fail("C18/outside-untouched", "octet %#zx behind the buffer's %#zx octets changed", bad, S);
+                        else
+                            mc_fail(cl_, "octet %#zx of the buffer differs from the model's content", bad);
+                    } else if (byte_buffer_avail(&b) != S - m_used || byte_buffer_rest(&b) != m_used - m_off)
+                        mc_fail("C18/avail-rest", "avail=%#zx rest=%#zx, model %#zx %#zx", byte_buffer_avail(&b),
+                                byte_buffer_rest(&b), S - m_used, m_used - m_off);
+                    free(xsrc);
+                    free(xdst);
+                    hot_write();
+                    mc_end(true, outcome);
+                }
+            }
+    }
+    /* set-up matrix with sizes of that scale: the mapping really has them */
+    size_t sv[40];
+    int nsv = 0;
+    const size_t cand[] = { 0, 1, 2, 255, 256, 65535, 65536, 65537, B31 - 1, B31, B31 + 1,
+                            B32 - 1, B32, B32 + 1, B32 + 2, B32 + 7, B32 + 8, 2 * B32, (size_t)1 << 63,
+                            SIZE_MAX - 1, SIZE_MAX };
+    for (size_t i = 0; i < sizeof cand / sizeof cand[0]; ++i)
+        nsv = uniq_push(sv, nsv, 40, cand[i]);
+    for (int pk = 0; pk < 2; ++pk)
+        for (int si = 0; si < nsv; ++si) {
+            const size_t S = sv[si];
+            if (S > B32 + 8)
+                continue; /* not a size the mapping has */
+            for (int dnull = 0; dnull < 2; ++dnull)
+                for (int ui = 0; ui < nsv; ++ui)
+                    for (int oi = 0; oi < nsv; ++oi) {
+                        const size_t used = sv[ui], off = sv[oi];
+                        if (!mc_case("big setup prior=%s set(data=%s,size=%#zx,used=%#zx,offset=%#zx)",
+                                     pk ? "in-use" : "zeroed", dnull ? "NULL" : "map", S, used, off))
+                            continue;
+                        if (!big_get()) {
+                            if (mapped)
+                                mc_cap("4 GiB mapping not available: large-scope family skipped");
+                            mapped = false;
+                            mc_end(false, "big-unmapped");
+                            continue;
+                        }
+                        mc_trans(1);
+                        unsigned char *pmem = mc_exact(4);
+                        memset(pmem, 0x42, 4);
+                        ByteBuffer b;
+                        memset(&b, 0, sizeof b);
+                        if (pk && byte_buffer_set(&b, pmem, 4, 3, 1) < 0)
+                            mc_fail("C18/setup-accepts-valid", "byte_buffer_set refused a valid state");
+                        const ByteBuffer before = b;
+                        unsigned char *data = dnull ? NULL : bigmap;
+                        int rc = 0;
+                        bool undecided = false;
+                        hot_snap();
+                        BIG_GUARDED(rc = byte_buffer_set(&b, data, S, used, off), undecided);
+                        if (undecided) {
+                            mc_log("undecided: the call touched the mapping outside the compared windows");
+                            if (!said_undecided)
+                                mc_cap("large-scope cases abandoned: the implementation touches memory in proportion to the buffer size");
+                            said_undecided = true;
+                            free(pmem);
+                            hot_write();
+                            mc_end(false, "big-undecided");
+                            continue;
+                        }
+                        mc_log("rc=%d size=%#zx used=%#zx offset=%#zx", rc, b.size, b.used, b.offset);
+                        const bool valid = !dnull && S > 0 && used <= S && off <= used;
+                        size_t bad = 0;
+                        if (valid) {
+                            if (rc < 0)
+                                mc_fail("C18/setup-accepts-valid", "refused rc=%d", rc);
+                            else if (b.data != data || b.size != S || b.used != used || b.offset != off)
+                                mc_fail("C18/setup-accepts-valid", "fields not set: size=%#zx used=%#zx offset=%#zx", b.size, b.used, b.offset);
+                            else if (!hot_check(S, used, false, BX_SAME, 0, 0, NULL, &bad))
+                                mc_fail("C18/setup-accepts-valid", "set-up changed octet %#zx", bad);
+                        } else if (rc >= 0) {
+                            mc_fail("C18/setup-refuses", "accepted rc=%d", rc);
+                        } else if (b.data != before.data || b.size != before.size || b.used != before.used
+                                   || b.offset != before.offset) {
+                            mc_fail("C18/refusal-unchanged",
+                                    "refused set-up changed the descriptor: data %s, size %#zx -> %#zx, used %#zx -> %#zx, offset %#zx -> %#zx",
+                                    b.data == before.data ? "same" : "changed", before.size, b.size, before.used,
+                                    b.used, before.offset, b.offset);
+                        } else if (!hot_check(S, 0, true, BX_SAME, 0, 0, NULL, &bad)) {
+                            mc_fail("C18/refusal-unchanged", "refused set-up changed octet %#zx", bad);
+                        }
+                        free(pmem);
+                        hot_write();
+                        mc_end(true, valid ? "big-set-ok" : "big-set-refused");
+                    }
+        }
 }
 
 int
@@ -357,8 +1283,22 @@ main(int argc, char **argv)
         explore(size);
         setup_matrix(size);
     }
-    char bound[128];
-    snprintf(bound, sizeof bound, "sizes 1..%zu, octets {00,a1,b2}, all operations, operand lengths 0..size+1, to fixpoint", maxsize);
+    /* the families below are odometers: sharded case by case */
+    mc_partition(-1, 100);
+    for (size_t size = 1; size <= maxsize; ++size)
+        reuse_pass(size);
+    mc_partition(-1, 101);
+    medium_family();
+    mc_partition(-1, 102);
+    big_family();
+    char bound[600];
+    snprintf(bound, sizeof bound,
+             "sizes 1..%zu, octets {00,a1,b2}, all operations, operand lengths 0..size+1, to fixpoint; "
+             "far operands 2^{8,15,16,31,32,3*2^32,48,63,64}-/+(size+1) in every reached state; "
+             "set-up matrix (small and far used/offset) on zeroed/ff/nulled/in-use(every used,offset) descriptors + every operation once after an accepted re-set-up; "
+             "sizes 2^{%s}-1..+1 on exact heap blocks x boundary (used,offset) x boundary/far operands, all operations; "
+             "sizes 2^31-1..2^31+1, 2^32-1..2^32+1, 2^32+7 on a lazily backed mapping x boundary (used,offset) x operations moving <= 8 octets or refusing (no clear), set-up matrix at that scale",
+             maxsize, mc_thorough() ? "7,8,15,16" : "8,16");
     mc_finish(true, bound);
     return 0;
 }
